@@ -158,6 +158,8 @@ struct Unit {
     items: Vec<String>,
     rewrites: BTreeSet<String>,
     fns: BTreeMap<String, FnSpec>,
+    /// R9: zero-argument method calls rewritten to free functions: method name -> function name
+    methodfns: BTreeMap<String, String>,
 }
 
 fn parse_unit(path: &str) -> Unit {
@@ -257,6 +259,9 @@ fn parse_unit_into(path: &str, u: &mut Unit) {
             "opaque" => u.opaque.extend(args),
             "items" => u.items.extend(args),
             "rewrite" => u.rewrites.extend(args),
+            "methodfn" => {
+                u.methodfns.insert(args[0].clone(), args[1].clone());
+            }
             _ => die(format!("unknown key `{key}` in {path}")),
         }
     }
@@ -275,6 +280,7 @@ struct Edit {
 
 struct Rw<'a> {
     src: &'a Src,
+    methodfns: &'a BTreeMap<String, String>,
     fname: String,
     spec: Option<&'a FnSpec>,
     rewrites: &'a BTreeSet<String>,
@@ -541,6 +547,17 @@ impl<'a, 'ast> Visit<'ast> for Rw<'a> {
                         }
                     }
                 }
+            }
+        }
+        if self.on("R9") && mc.args.is_empty() && mc.turbofish.is_none() {
+            if let Some(f) = self.methodfns.get(&mc.method.to_string()) {
+                self.hit("R9");
+                let (r_s, r_e) = (self.src.s(mc.receiver.span()), self.src.e(mc.receiver.span()));
+                let mc_e = self.src.e(mc.span());
+                self.ins(r_s, format!("{f}("), "R9".into());
+                self.rep(r_e, mc_e, ")".into(), "R9".into());
+                self.visit_expr(&mc.receiver);
+                return;
             }
         }
         visit::visit_expr_method_call(self, mc);
@@ -832,7 +849,71 @@ fn cmd_unit(args: &[String]) {
     let top = find_mod_items(&ast.items);
     for want in &unit.items {
         let mut found = false;
-        if let Some((tr, meth)) = want.split_once("::") {
+        if let Some(rest) = want.strip_prefix("impl:") {
+            // nth inherent impl block of a type, copied whole; contract blocks are keyed `Type:N::method`
+            let (ty, n) = rest.split_once(':').unwrap_or_else(|| die("impl item must be `impl:Type:N`"));
+            let n: usize = n.parse().unwrap_or_else(|_| die("impl item must be `impl:Type:N`"));
+            let mut k = 0;
+            for it in &top {
+                if let syn::Item::Impl(im) = it {
+                    if im.trait_.is_some() {
+                        continue;
+                    }
+                    let name = match &*im.self_ty {
+                        syn::Type::Path(p) => p.path.segments.last().map(|s| s.ident.to_string()).unwrap_or_default(),
+                        _ => String::new(),
+                    };
+                    if name != ty {
+                        continue;
+                    }
+                    k += 1;
+                    if k != n {
+                        continue;
+                    }
+                    found = true;
+                    let (is_, ie) = (src.s(im.span()), src.e(im.span()));
+                    let mut all_edits: Vec<Edit> = vec![];
+                    let mut seq_base = 0usize;
+                    for ii in &im.items {
+                        if let syn::ImplItem::Fn(f) = ii {
+                            let key = format!("{ty}:{n}::{}", f.sig.ident);
+                            match cfg_of(&f.attrs, &feats) {
+                                Some(false) => {
+                                    let (a, b) = (src.s(ii.span()), src.e(ii.span()));
+                                    seq_base += 1;
+                                    all_edits.push(Edit { start: a, end: b, seq: seq_base, text: String::new(), label: "cfg".into() });
+                                    *hits.entry("cfg-item-dropped".into()).or_insert(0) += 1;
+                                    continue;
+                                }
+                                Some(true) => {
+                                    for at in &f.attrs {
+                                        if at.path().is_ident("cfg") {
+                                            seq_base += 1;
+                                            all_edits.push(Edit { start: src.s(at.span()), end: src.e(at.span()), seq: seq_base, text: String::new(), label: "cfg".into() });
+                                        }
+                                    }
+                                    *hits.entry("cfg-item-kept".into()).or_insert(0) += 1;
+                                }
+                                None => {}
+                            }
+                            let spec = unit.fns.get(&key);
+                            let mut rw = Rw { src: &src, methodfns: &unit.methodfns, fname: key.clone(), spec, rewrites: &unit.rewrites, feats: &feats, falsify, edits: vec![], seq: seq_base, loops: 0, closures: 0, hits: BTreeMap::new(), used: BTreeSet::new(), falsify_labels: vec![] };
+                            do_fn(&mut rw, &f.sig, &f.block, &src);
+                            seen_fns.insert(key.clone());
+                            functions.push(format!("{{\"name\":{},\"file\":{},\"line0\":{},\"line1\":{},\"loops\":{}}}", jstr(&key), jstr(&unit.source), src.line_of(src.s(f.sig.span())), src.line_of(src.e(ii.span())), rw.loops));
+                            check_used(&key, spec, &rw.used);
+                            for (k2, v) in &rw.hits {
+                                *hits.entry(k2.clone()).or_insert(0) += v;
+                            }
+                            falsify_labels.extend(rw.falsify_labels.clone());
+                            seq_base = rw.seq;
+                            all_edits.extend(rw.edits);
+                        }
+                    }
+                    out.apply(&src, is_, ie, all_edits);
+                }
+            }
+        } else if let Some((tr, meth)) = want.split_once("::") {
             // R4: method of the (single) impl of trait `tr`
             if !unit.rewrites.contains("R4") {
                 die("trait-impl item requested but R4 not enabled");
@@ -861,7 +942,7 @@ fn cmd_unit(args: &[String]) {
                         die("R4: method already generic");
                     }
                     let spec = unit.fns.get(meth);
-                    let mut rw = Rw { src: &src, fname: meth.to_string(), spec, rewrites: &unit.rewrites, feats: &feats, falsify, edits: vec![], seq: 0, loops: 0, closures: 0, hits: BTreeMap::new(), used: BTreeSet::new(), falsify_labels: vec![] };
+                    let mut rw = Rw { src: &src, methodfns: &unit.methodfns, fname: meth.to_string(), spec, rewrites: &unit.rewrites, feats: &feats, falsify, edits: vec![], seq: 0, loops: 0, closures: 0, hits: BTreeMap::new(), used: BTreeSet::new(), falsify_labels: vec![] };
                     rw.hit("R4");
                     let (is_, ie) = (src.s(im.span()), src.e(im.span()));
                     let fs = src.s(f.span());
@@ -889,7 +970,7 @@ fn cmd_unit(args: &[String]) {
                     syn::Item::Fn(f) if f.sig.ident == want => {
                         found = true;
                         let spec = unit.fns.get(want);
-                        let mut rw = Rw { src: &src, fname: want.clone(), spec, rewrites: &unit.rewrites, feats: &feats, falsify, edits: vec![], seq: 0, loops: 0, closures: 0, hits: BTreeMap::new(), used: BTreeSet::new(), falsify_labels: vec![] };
+                        let mut rw = Rw { src: &src, methodfns: &unit.methodfns, fname: want.clone(), spec, rewrites: &unit.rewrites, feats: &feats, falsify, edits: vec![], seq: 0, loops: 0, closures: 0, hits: BTreeMap::new(), used: BTreeSet::new(), falsify_labels: vec![] };
                         let (s, e) = (src.s(it.span()), src.e(it.span()));
                         do_fn(&mut rw, &f.sig, &f.block, &src);
                         seen_fns.insert(want.clone());
@@ -978,6 +1059,33 @@ fn do_fn(rw: &mut Rw, sig: &syn::Signature, block: &syn::Block, src: &Src) {
         }
     }
     let oe = src.e(block.brace_token.span.open());
+    // R10: `fn f(mut self, ..) { body }` -> `fn f(self, ..) { let mut this = self; body[self := this] }`
+    if let Some(syn::FnArg::Receiver(rc)) = sig.inputs.first() {
+        if rc.reference.is_none() && rc.mutability.is_some() {
+            if !rw.on("R10") {
+                die("`mut self` receiver present but R10 not enabled");
+            }
+            rw.hit("R10");
+            let m = rc.mutability.unwrap();
+            let (a, b) = (src.s(m.span()), src.e(m.span()));
+            rw.rep(a, b, String::new(), "R10".into());
+            rw.ins(oe, " let mut this = self; ".into(), "R10".into());
+            fn walk(ts: TokenStream, src: &Src, out: &mut Vec<(usize, usize)>) {
+                for t in ts {
+                    match t {
+                        TokenTree::Ident(i) if i == "self" => out.push((src.s(i.span()), src.e(i.span()))),
+                        TokenTree::Group(g) => walk(g.stream(), src, out),
+                        _ => {}
+                    }
+                }
+            }
+            let mut v = vec![];
+            walk(block.to_token_stream(), src, &mut v);
+            for (a, b) in v {
+                rw.rep(a, b, "this".into(), "R10".into());
+            }
+        }
+    }
     if rw.falsify {
         let l = format!("falsify:{f}");
         rw.falsify_labels.push(l.clone());
